@@ -49,6 +49,7 @@ def params():
         "X2": gens.pose2(t_hi=6), "Y2": gens.pose2(t_hi=6),
         "noise": gens.logmag(-15, -2), "pattern": st.lists(gens.fl(-1, 1), min_size=9, max_size=9),
         "n": st.integers(-8, 8),
+        "close": gens.logmag(-9, 0),
     })
 
 
@@ -79,6 +80,13 @@ def _noisy(p, se):
     M = T.copy() if se else T[:3, :3].copy()
     M[:3, :3] += np.array(p["pattern"]).reshape(3, 3) * p["noise"]
     return M
+
+
+def _close_to(p, se):
+    """a pose whose rotation differs from X by the small angle p['close'] about p['axis']"""
+    T = refs.pose3_of(p["X"])
+    R = refs.polish(T[:3, :3] @ refs.rodrigues(p["axis"], p["close"]))
+    return refs.rt(R, arr(p["t"])) if se else R
 
 
 def _seed(p):
@@ -117,6 +125,14 @@ ENTRIES = {
     "trinterp": lambda p: [(B().trinterp(refs.pose3_of(p["X"]), refs.pose3_of(p["Y"]), p["s"]), "SE3"),
                            (B().trinterp(None, refs.pose3_of(p["Y"]), p["s"]), "SE3"),
                            (B().trinterp(refs.pose3_of(p["X"])[:3, :3].copy(), refs.pose3_of(p["Y"])[:3, :3].copy(), p["s"]), "SO3")],
+    "interp/close": lambda p: [(B().trinterp(refs.pose3_of(p["X"]), _close_to(p, True), p["s"]), "SE3"),
+                               (B().trinterp(refs.pose3_of(p["X"])[:3, :3].copy(), _close_to(p, False), p["s"]), "SO3"),
+                               (B().slerp(refs.q_of(p["X"]["rot"]), B().r2q(_close_to(p, False)), p["s"], True), "q"),
+                               (L.SE3(_close_to(p, True)).interp(p["s"], L.SE3(refs.pose3_of(p["X"]))), "SE3"),
+                               (L.SO3(_close_to(p, False)).interp(p["s"], L.SO3(refs.pose3_of(p["X"])[:3, :3].copy())), "SO3"),
+                               (L.UnitQuaternion(refs.pose3_of(p["X"])[:3, :3].copy()).interp(p["s"], L.UnitQuaternion(_close_to(p, False))), "q"),
+                               (L.SO3(refs.rodrigues(p["axis"], p["close"])).interp(p["s"]), "SO3"),
+                               (L.UnitQuaternion(refs.rodrigues(p["axis"], p["close"])).interp(p["s"]), "q")],
     "slerp": lambda p: [(B().slerp(refs.q_of(p["X"]["rot"]), refs.q_of(p["Y"]["rot"]), p["s"], True), "q")],
     "rand": lambda p: (_seed(p), [(B().rand(), "q"), (B().q2r(B().rand()), "SO3")])[1],
     "transl": lambda p: [(B().transl(list(p["t"])), "SE3"), (B().transl(*p["t"]), "SE3")],
